@@ -66,5 +66,58 @@ INFO = {
     },
 }
 
+INFO.update({
+    'C10': {
+        'decides': 'operations(): single Ok result = the vector of the alignment loop, exactly one push and from_ptr+1 per iteration, '
+                   'operation <-> to_ptr step <-> guard table, unwrap/index guards; repair(): mismatch => Err with a panic-free error path, '
+                   'only a single space inserted and only under Insert/!ws/!prev-ws, skip only under Delete && ws, in-order zip; one '
+                   'whitespace predicate; labels = operations(input, target)',
+        'not_decided': ['repair(from, operations(from, to)) == to as a value statement', 'behaviour on inputs that are not whitespace-clean'],
+    },
+    'C11': {
+        'decides': 'Character::is_whitespace = all code points char::is_whitespace on every path and used by clean/word_boundaries/'
+                   'remove/full; clean(): skip/remember/one-space/append discipline; remove/full filter the characters of the input '
+                   'itself; word_boundaries open/close/trailing-word table',
+        'not_decided': ['idempotence and equality with split_whitespace().join(" ") as value statements',
+                        'grapheme segmentation itself (unicode-segmentation crate)'],
+    },
+    'C12': {
+        'decides': 'term-by-term reconstruction of the DP recurrence (cell offsets, costs, ops, guards incl. the whitespace restrictions), '
+                   'initialisation, first-minimum selector, backtrace table and reversal, answer cell / prefix row, clamped divisor, '
+                   'single result expression',
+        'not_decided': ['the [0,1] bound of the normalised distance under spaces_insert_delete_only (does not hold by definition)',
+                        'the induction from the recurrence to the value statement is on paper'],
+    },
+    'C13': {
+        'decides': 'all float divisions have non-zero divisors, F-beta shape (recall-weighted), explicit panic-site inventory over the '
+                   'call graph of the metric entry points (D7 known finding), set-operation provenance of tp/fp/fn, empty-sequence flag, '
+                   'micro / sequence-averaged aggregation shapes, accuracy / mean edit distance shapes',
+        'not_decided': ['numeric values of F-beta; calibration clauses as value statements', 'implicit arithmetic panics (overflow) are not inventoried'],
+    },
+    'C14': {
+        'decides': 'unconditional seed_from_u64(info.seed), one uniform draw per character before branching, per-character yield table '
+                   '("" / c / " "+c) with its guards (strict <, idx > 0, previous CHARACTER not whitespace), join(""), apply() rewrites only '
+                   'the selected part, labels via whitespace::operations',
+        'not_decided': ['recoverability by operations/repair as a value statement', 'the distribution of the draws'],
+    },
+    'C15': {
+        'decides': 'all checked subtractions in corrupt.rs are guarded, exclusion set consulted for exactly the touched positions and an '
+                   'excluded position rejects the candidate (path sensitive), re-indexing maps per edit kind (exact, total, collected), '
+                   'no in-place shifting, new positions added, result string pieces, exclusion set threaded through chained edits',
+        'not_decided': ['exactly-one-edit as a value statement', 'behaviour of user supplied CanEdit/GetEdits implementations'],
+    },
+    'C16': {
+        'decides': 'configuration guard max <= 2*context => Err dominating the window-length subtraction, tiling shape (start 0, next start '
+                   '= pushed end, loop until len), window_end formulas, no-progress => Err before push (byte), Window field table, context '
+                   'formulas, count_until budget test',
+        'not_decided': ['the size bound of a context as a value statement', 'CharString::char_range_to_byte_range correctness'],
+    },
+    'C18': {
+        'decides': 'term-by-term reconstruction of the LCS recurrence (2-D offsets, +[match], Match iff matching), last-maximum selector, '
+                   'border initialisation, backtrace table with push after the step, reversal, returned counts, case-insensitive '
+                   'comparison by lower-casing only, edited_words complements by side',
+        'not_decided': ['maximality of the matching as a value statement (follows from the recurrence on paper)'],
+    },
+})
 NOT_DECIDED = {k: v.get('not_decided', []) for k, v in INFO.items()}
 ASSUMPTIONS = {k: v.get('assumptions', []) for k, v in INFO.items()}
